@@ -1,22 +1,6 @@
 import Mathlib.Data.List.Basic
+import GeoVerif.Model.ClientParse
 namespace GeoVerif
-
-def isBlankCh (c : Char) : Bool := c == ' ' || c == '\t' || c == '\n' || c == '\r'
-
-/-- Python `str.split()` (no argument) on a character list -/
-def splitWsAux : List Char → List Char → List (List Char)
-  | [], acc => if acc.isEmpty then [] else [acc.reverse]
-  | c :: cs, acc =>
-    if isBlankCh c then
-      (if acc.isEmpty then splitWsAux cs [] else acc.reverse :: splitWsAux cs [])
-    else splitWsAux cs (c :: acc)
-
-def splitWs (s : List Char) : List (List Char) := splitWsAux s []
-
-/-- a table row as the writer emits it: cells separated (and possibly preceded / followed) by blank runs -/
-def renderRow (lead : List Char) : List (List Char × List Char) → List Char
-  | [] => lead
-  | (cell, sep) :: rest => lead ++ cell ++ renderRow sep rest
 
 def Blank (s : List Char) : Prop := ∀ c ∈ s, isBlankCh c = true
 def Solid (s : List Char) : Prop := s ≠ [] ∧ ∀ c ∈ s, isBlankCh c = false
